@@ -214,6 +214,9 @@ func addIntrinsics(P *Program) {
 		i.crashOn = asInt64(args[0]) > 0
 		return nil
 	})
+	reg("Invoke", func(i *interpreter, fr *frame, fn *ssa.Function, args []value) value {
+		return i.invoke(goString(args[0], "vsym.Invoke"), args[1], args[2])
+	})
 	reg("ModelOpensKeepLockGuard", func(i *interpreter, fr *frame, fn *ssa.Function, args []value) value {
 		for _, b := range i.blog().bypass {
 			if b {
